@@ -2229,3 +2229,93 @@ func ruleSKEEPKIND(p *Program, r *Reporter) {
 		r.Info("S-KEEPKIND: the notification filters reach no *ovsdb.Row -> *ovsdb.Row helper in package server (projection written inline): nothing to decide")
 	}
 }
+
+// ---------------------------------------------------------------------------
+// P-IDX-RPC: no request can crash the built-in server by being too short.
+//
+// The rpc2 handlers of server.OvsdbServer receive the positional parameters of a
+// request as a slice whose length the peer chooses. Every index (or constant
+// slice bound) on that slice, in the handler or in a private helper it hands the
+// slice to, needs a dominating test that implies the length (the same oracle as
+// P-IDX on the decoders). rpc2 runs handlers without recover: an index out of
+// range takes the whole process down.
+
+func rulePIDXRPC(p *Program, r *Reporter) {
+	const id = "P-IDX-RPC"
+	srv := p.LookupType("server", "OvsdbServer")
+	if srv == nil {
+		r.Anchor(id, "server.OvsdbServer")
+		return
+	}
+	isHandler := func(fn *ssa.Function) bool {
+		if fn.Parent() != nil || pkgOf(fn) != "server" || fn.Signature.Recv() == nil || len(fn.Params) != 4 {
+			return false
+		}
+		if !isNamed(deref(fn.Params[1].Type()), "github.com/cenkalti/rpc2", "Client") {
+			return false
+		}
+		_, isSlice := fn.Params[2].Type().Underlying().(*types.Slice)
+		return isSlice && fn.Object() != nil && fn.Object().Exported()
+	}
+	handlers := 0
+	var visit func(fn *ssa.Function, args ssa.Value, seen map[*ssa.Function]bool)
+	visit = func(fn *ssa.Function, args ssa.Value, seen map[*ssa.Function]bool) {
+		if seen[fn] {
+			return
+		}
+		seen[fn] = true
+		fc := newFlowCtx(fn)
+		for _, b := range fn.Blocks {
+			for _, ins := range b.Instrs {
+				switch x := ins.(type) {
+				case *ssa.IndexAddr:
+					if x.X == args {
+						ok, _, why := checkIndex(fc, x.X, x.Index, x)
+						r.Ob(id, funcName(fn), "request parameter "+opndStr(x), x.Pos(), ok, true,
+							ifs(ok, why, "the request's parameter list is indexed without a test of its length: a request with fewer parameters panics in the handler, and rpc2 does not recover ("+why+")"))
+					}
+				case *ssa.Slice:
+					if x.X == args {
+						var need int64
+						for _, bnd := range []ssa.Value{x.Low, x.High, x.Max} {
+							if k, isC := constInt(bnd); bnd != nil && isC && k > need {
+								need = k
+							}
+						}
+						if need > 0 {
+							ok, why := fc.lenAtLeast(x.X, need, x)
+							r.Ob(id, funcName(fn), "request parameters sliced", x.Pos(), ok, true,
+								ifs(ok, why, fmt.Sprintf("the request's parameter list is sliced at %d without a test of its length", need)))
+						}
+					}
+				case *ssa.Call:
+					// handed on to a private helper
+					g := x.Call.StaticCallee()
+					if g == nil || g.Blocks == nil || pkgOf(g) != "server" {
+						continue
+					}
+					off := 0
+					if x.Call.IsInvoke() {
+						continue
+					}
+					for i, a := range x.Call.Args {
+						if a == args && i+off < len(g.Params) {
+							visit(g, g.Params[i+off], seen)
+						}
+					}
+				}
+			}
+		}
+	}
+	for _, fn := range p.srcFuncs {
+		if !isHandler(fn) {
+			continue
+		}
+		handlers++
+		visit(fn, fn.Params[2], map[*ssa.Function]bool{})
+	}
+	if handlers < 5 {
+		r.Anchor(id, fmt.Sprintf("%d rpc2 handlers found on server.OvsdbServer, expected >= 5", handlers))
+	}
+	_ = srv
+}
